@@ -77,14 +77,14 @@ func hasFail(fs []fail, kind string) bool {
 }
 
 var scripts = []string{"killed-replace", "price-drop-extend", "kill-twice-close", "challenge-cycle", "challenge-cycle", "exhaust-write-pool",
-	"fail-then-replace-alive", "upload-delete-close", "price-drop-all-extend", "duplicate-blobber-alloc", "tiny-validator-reward", "odd-extend-then-replace"}
+	"fail-then-replace-alive", "upload-delete-close", "price-drop-all-extend", "duplicate-blobber-alloc", "tiny-validator-reward", "odd-extend-then-replace", "ineligible-candidates", "read-pool-lock-for-other", "delete-kill-replace", "timed-out-challenge-then-close"}
 
 // the paths a property depends on most are scripted more often when that property is checked
 var scriptsMore = map[string][]string{
-	"C12": {"fail-then-replace-alive", "fail-then-replace-alive", "price-drop-all-extend", "upload-delete-close", "tiny-validator-reward"},
-	"C14": {"upload-delete-close", "upload-delete-close", "fail-then-replace-alive", "time-unit-change-close", "time-unit-change-close", "time-unit-change-close"},
-	"C09": {"price-drop-all-extend", "price-drop-all-extend", "fail-then-replace-alive", "upload-delete-close", "tiny-validator-reward", "tiny-validator-reward", "tiny-validator-reward"},
-	"C13": {"fail-then-replace-alive", "duplicate-blobber-alloc", "duplicate-blobber-alloc", "odd-extend-then-replace", "odd-extend-then-replace", "odd-extend-then-replace"},
+	"C12": {"fail-then-replace-alive", "fail-then-replace-alive", "price-drop-all-extend", "upload-delete-close", "tiny-validator-reward", "delete-kill-replace", "delete-kill-replace", "delete-kill-replace"},
+	"C14": {"upload-delete-close", "upload-delete-close", "fail-then-replace-alive", "time-unit-change-close", "time-unit-change-close", "time-unit-change-close", "timed-out-challenge-then-close", "timed-out-challenge-then-close", "timed-out-challenge-then-close"},
+	"C09": {"price-drop-all-extend", "price-drop-all-extend", "fail-then-replace-alive", "upload-delete-close", "tiny-validator-reward", "tiny-validator-reward", "tiny-validator-reward", "read-pool-lock-for-other", "read-pool-lock-for-other", "read-pool-lock-for-other"},
+	"C13": {"fail-then-replace-alive", "duplicate-blobber-alloc", "duplicate-blobber-alloc", "odd-extend-then-replace", "odd-extend-then-replace", "odd-extend-then-replace", "ineligible-candidates", "ineligible-candidates", "ineligible-candidates"},
 	"C24": {"free-out-of-order-replay", "assigner-key-rotation", "assigner-key-rotation", "assigner-key-rotation"},
 }
 
@@ -222,6 +222,9 @@ func main() {
 			}
 			if h.Ent {
 				g.script = "enterprise-close"
+			}
+			if g.script == "timed-out-challenge-then-close" && hr.Chance(2, 3) {
+				h.Conf.BlobberSlash = 0 // legal via update_settings
 			}
 			if g.script == "odd-extend-then-replace" {
 				// three data shards + parity + a spare blobber
